@@ -19,7 +19,7 @@ def run(ctx, prop="C07", family="C07", engines_each=True):
     for inst in insts:
         for rep in range(reps):
             names = ["std", "numeric", "lower"][rep % 3]
-            concrete = lastext.concretise(inst["text"], rng, {"names": names})
+            concrete = lastext.concretise(inst["text"], rng, {"names": names, "neg": rep % 2 == 1})
             for eng in ("numpy", "normal"):
                 ev = lastext.read_event(prop, inst, concrete, engines=(eng,), names=names)
                 events.append(ev)
